@@ -316,8 +316,6 @@ class Calls(Exec):
         old = st.fork()
         old.frames.append(fr.copy())
         outs = []
-        if cb_closure is not None:
-            self.callback_closure_havoc(st, cb_closure, node)
         # exceptional continuation(s)
         for exc in c.raises:
             s2 = st.fork()
@@ -329,7 +327,19 @@ class Calls(Exec):
             if self.feasible(s2):
                 self.exc_sink.append((s2, ev))
         # normal continuation
+        pre_call0 = st.fork()
         self.havoc_frame(st, c, fr, node)
+        if cb_closure is not None:
+            pre_call = pre_call0
+            self.callback_closure_havoc(st, cb_closure, node)
+            # two-state clauses every invocation of the closure preserves (reflexive, transitive by construction)
+            cc_, fidx_ = cb_closure[0], cb_closure[1]
+            for e in cc_.stable:
+                s_old = pre_call.fork()
+                # `old` for these clauses is the state just before the callee was called, seen from the closure's
+                # defining frame
+                st.assume(self.eval_spec(st, e, st.frames[fidx_], old=self._old_view(pre_call, fidx_), assume=True))
+
         RT = parse_type(c.returns)
         if RT[0] in ('ref', 'list', 'rec') or c.allocates or self._may_allocate(RT):
             a2 = fresh_int('alloc')
@@ -341,6 +351,12 @@ class Calls(Exec):
         if not self.feasible(st):
             return []
         return [(st, res)]
+
+    def _old_view(self, state, frame_idx):
+        "a snapshot whose top frame is frame `frame_idx` of `state` (old() evaluates in the top frame)"
+        s = state.fork()
+        s.frames = s.frames[:frame_idx + 1]
+        return s
 
     def callback_closure_pre(self, st, c, bound, fr, node):
         """the argument for the callee's callback parameter is a closure of the function under proof:
@@ -410,6 +426,7 @@ class Calls(Exec):
             self.havoc_target(st, mexpr, outer_frame, node)
         for g, (GT, init) in callee.ghost.items():
             outer_frame.loc[g] = self.make_fresh(st, parse_type(GT), g)
+        self._pending_stable = (cc, frame_idx)
         for inv in cc.closure_invariant:
             st.assume(self.eval_spec(st, inv, outer_frame, old=st.old, assume=True))
 
@@ -1147,6 +1164,14 @@ class Calls(Exec):
 
     # ------------------------------------------------------------ dict methods
     def call_dictmethod(self, st, d, name, args, kwargs, node):
+        if name in ('get', 'pop', 'setdefault') and args and isinstance(args[0], VU) and not st.spec:
+            res = []
+            for s2, k in self.force(st, args[0]):
+                try:
+                    res.extend(self.call_dictmethod(s2, d, name, [k] + list(args[1:]), kwargs, node))
+                except PathDead:
+                    pass
+            return res
         if isinstance(d, (VMap, VAny)):
             m = self.as_map(st, d, node)
             if name == 'get':
